@@ -222,6 +222,27 @@ pub fn exec(toks: &[&str]) -> String {
                 }
             })
         }
+        ["tryfix", kind, hx] => {
+            let b = match unhex(hx) { Some(b) => b, None => return "bad-op".into() };
+            let kind = kind.to_string();
+            guarded(move || {
+                let mut r = &b[..];
+                macro_rules! rd { ($t:ty) => { match run(<$t>::try_read(&mut r)) {
+                    Some(Ok(Ok(x))) => format!("ok {} {} {} consumed={}", x.version(), x.session(), hex(&x.as_ref()[8..]), b.len() - r.len()),
+                    Some(Ok(Err(h))) => format!("hdr {} consumed={}", hex(h.as_ref()), b.len() - r.len()),
+                    Some(Err(e)) => io_err(&e).into(),
+                    None => "pending".into(),
+                } } }
+                match kind.as_str() {
+                    "notify" => rd!(pdu::SerialNotify),
+                    "squery" => rd!(pdu::SerialQuery),
+                    "rquery" => rd!(pdu::ResetQuery),
+                    "cresp" => rd!(pdu::CacheResponse),
+                    "creset" => rd!(pdu::CacheReset),
+                    _ => "bad-op".into(),
+                }
+            })
+        }
         ["ctl", kind, ver, sess, serial, timing] => {
             let v: u8 = ver.parse().unwrap();
             let state = State::from_parts(sess.parse().unwrap(), Serial(serial.parse().unwrap()));
@@ -395,9 +416,18 @@ pub fn generate(ctx: &mut Ctx) {
         let mut b = vec![1u8, ty, 0x12, 0x34, 0, 0, 0, size as u8];
         b.extend((0..size - 8).map(|i| i as u8 + 1));
         for k in 0..=b.len() { ctx.case(&format!("rdfix {} {}", kind, hex(&b[..k]))); }
+        for k in 0..=b.len() { ctx.case(&format!("tryfix {} {}", kind, hex(&b[..k]))); }
         for t2 in 0..=11u8 { let mut c = b.clone(); c[1] = t2; ctx.case(&format!("rdfix {} {}", kind, hex(&c))); }
+        for t2 in 0..=11u8 { let mut c = b.clone(); c[1] = t2; ctx.case(&format!("tryfix {} {}", kind, hex(&c))); }
         for nl in [0u8, 7, 8, 9, 12, 13, 24] { let mut c = b.clone(); c[7] = nl; ctx.case(&format!("rdfix {} {}", kind, hex(&c))); }
+        for nl in [0u8, 7, 8, 9, 12, 13, 24] { let mut c = b.clone(); c[7] = nl; ctx.case(&format!("tryfix {} {}", kind, hex(&c))); }
         let mut c = b.clone(); c[4] = 1; ctx.case(&format!("rdfix {} {}", kind, hex(&c)));
+        let mut c = b.clone(); c[4] = 1; ctx.case(&format!("tryfix {} {}", kind, hex(&c)));
+        // an Error PDU's header in front: whole, truncated, with a body behind it, with odd lengths
+        for len in [0u8, 8, 16, 200] { for k in [3usize, 8, 12] {
+            let mut c = vec![1u8, 10, 0, 2, 0, 0, 0, len]; c.extend_from_slice(&[0, 0, 0, 0, 0, 0, 0, 0]); c.truncate(k);
+            ctx.case(&format!("tryfix {} {}", kind, hex(&c)));
+        }}
     }
     // skip_payload: every truncation of the error PDU body under several chunk schedules
     for total in [0u32, 7, 8, 9, 16, 24, 1031, 1032, 1033, 2100] {
